@@ -123,6 +123,7 @@ def plan(prop, tier):
                   MaxLen=3 if q else 4, FlagSets="<-FlagsM")] + \
                ([] if q else [G("loops5", Leaves="<-LvLoop", Quants="<-QBasicLazy", MaxSize=5, Alpha="{97, 98, 10}",
                                 MaxLen=3, FlagSets="<-FlagsM")]) + [
+                {"type": "machine", "tag": "machine", "size": 3 if q else 4, "len": 3},
                 T("rand", "loops", 2000, 40000), T("bounds", "general", 2200, 21000, mode="bounds"),
                 T("garbage", "general", 1000, 30000, mode="garbage")]
     if prop == "C07":
@@ -257,6 +258,33 @@ def run_check(prop, tier):
                                "invariants": st["invs"], "tlc_states": info["distinct"], "wall_s": info["wall_s"],
                                "behaviours": stats["behaviours"],
                                "facts_patterns_checked": stats.get("facts_patterns_checked", 0)})
+        elif st["type"] == "machine":
+            consts = {"Leaves": "<-LvMachine", "Quants": "<-QMachine", "MaxSize": st["size"], "Shapes": "<-MShapes",
+                      "FlagSets": "<-MFlags", "MaxGroups": 2, "SeqCost": 0, "AltCost": 1, "MAlpha": "{97, 98}",
+                      "MMaxLen": st["len"], "EmptyRule": "TRUE"}
+            d = os.path.join(orch.WORK, tag)
+            import shutil
+            shutil.rmtree(d, ignore_errors=True); os.makedirs(d)
+            lines = ["SPECIFICATION MSpec", "CHECK_DEADLOCK FALSE", "CONSTANTS"] + \
+                    ["  %s %s" % (k, v) if str(v).startswith("<-") else "  %s = %s" % (k, v) for k, v in consts.items()] + \
+                    ["INVARIANTS MRefines MWellFormed", "PROPERTY MTerminates"]
+            open(os.path.join(d, "mc.cfg"), "w").write("\n".join(lines) + "\n")
+            import subprocess, time as _t
+            t1 = _t.time()
+            p = subprocess.run(["timeout", "3000", orch.TLC, "-workers", "8", "-metadir", os.path.join(d, "meta"), "-cleanup",
+                                "-noGenerateSpecTE", "-config", os.path.join(d, "mc.cfg"), "Machine.tla"], cwd=orch.SPEC,
+                               stdout=subprocess.PIPE, stderr=subprocess.STDOUT, text=True,
+                               env=dict(os.environ, VERIF_DATA=os.path.join(orch.ROOT, "data")))
+            open(os.path.join(d, "tlc.log"), "w").write(p.stdout)
+            info = orch.parse_tlc_log(p.stdout)
+            if info["errors"] or not info["finished"] or p.returncode != 0:
+                sys.stderr.write(p.stdout[-3000:])
+                raise ToolError("Machine.tla: TLC reported %s" % info["errors"][:3])
+            tot["states"] += info["distinct"]; tot["transitions"] += info["states"]
+            log("machine stage %s: %d states, refinement + termination hold, %.1fs" % (tag, info["distinct"], _t.time() - t1))
+            stage_info.append({"stage": st["tag"], "module": "Machine.tla", "consts": consts, "tlc_states": info["distinct"],
+                               "invariants": ["MRefines", "MWellFormed"], "liveness": "MTerminates (WF on the machine step)",
+                               "wall_s": round(_t.time() - t1, 1), "exhaustive": True})
         elif st["type"] == "apimc":
             info = orch.tlc_model(tag, "MCApi.tla", st["consts"], ["T5_Inv", "T6_Inv", "T14_Pure"], init="MInit", nxt="MNext",
                                   extra="VIEW View\nPROPERTY T6_Progress")
